@@ -16,6 +16,29 @@ namespace RawPanelVerif.Topo
 
 abbrev Str := List UInt8
 
+/-! ### the `float32` token
+
+`Rotate` is carried as the decimal text of the value.  Which value a token denotes matters in exactly one respect:
+whether it is zero (Go's `x != 0`, `omitempty`).  `-0`, `0.0`, `0e3` … all denote zero (`-0 == 0` in Go). -/
+
+/-- the token denotes the value zero (either sign): optional sign, then a mantissa (the part before `e`/`E`) made
+of `0` and `.` only, with at least one `0` -/
+def rotIsZero (tok : Str) : Bool :=
+  let s := match tok with
+    | 45 :: r => r
+    | 43 :: r => r
+    | s => s
+  let m := s.takeWhile (fun c => c != 101 && c != 69)
+  m.any (· == 48) && m.all (fun c => c == 48 || c == 46)
+
+/-- canonical text of a token as `encoding/json` prints the value it denotes, for the zero tokens (`0`, `-0`);
+other tokens are taken as they are (the harness prints them canonically) -/
+def rotCanon (tok : Str) : Str :=
+  if rotIsZero tok then (match tok with | 45 :: _ => [45, 48] | _ => [48]) else tok
+
+/-- normal form under Go's `==` on floats: both zeros are the token `0` -/
+def rotNorm (tok : Str) : Str := if rotIsZero tok then [48] else tok
+
 /-- `TopologyHWcTypeDefSubEl` -/
 structure SubEl where
   objType : Str := []
@@ -77,6 +100,14 @@ structure Topology where
   ti : Map TypeDef := []
   tiNil : Bool := false
 deriving Repr, DecidableEq, Inhabited
+
+/-! ### equality of values: Go's `==` on the `float32` field does not tell the two zeros apart -/
+
+def TypeDef.norm (td : TypeDef) : TypeDef := { td with rotate := rotNorm td.rotate }
+def HWc.norm (c : HWc) : HWc := { c with ov := c.ov.map TypeDef.norm }
+/-- normal form of a topology under Go equality (`reflect.DeepEqual` up to nil-ness flags, which are kept) -/
+def Topology.norm (t : Topology) : Topology :=
+  { t with hwc := t.hwc.map HWc.norm, ti := t.ti.map (fun e => (e.1, e.2.norm)) }
 
 /-- JSON tree.  Numbers keep their literal text (ints: decimal; float32: what Go prints). -/
 inductive JVal where
